@@ -527,7 +527,7 @@ def _default_value(d):
     try:
         return ('lit', repr(ast.literal_eval(d)))
     except (ValueError, SyntaxError, TypeError):
-        return ('expr', ast.unparse(d))
+        return ('expr', ast.unparse(d).replace('numpy.', 'np.'))
 
 
 def _compare_defaults(ctx, rule, fa, ref, positional, why):
